@@ -1291,6 +1291,17 @@ func (s *Service) ProcessRequest(ctx *core.Context, m map[string]interface{}, ou
 			if err = json.Unmarshal([]byte(js), &parents); err != nil {
 				return nil, err
 			}
+			// (Decoding into strings turns a null into "": look at
+			// what was given.)
+			var elems []interface{}
+			if err = json.Unmarshal([]byte(js), &elems); err != nil {
+				return nil, err
+			}
+			for _, x := range elems {
+				if _, is := x.(string); !is {
+					return nil, fmt.Errorf("parent %#v isn't a string", x)
+				}
+			}
 
 			_, err := s.System.SetParents(ctx, location, parents)
 			if err != nil {
